@@ -3,8 +3,8 @@
 set -u
 export GOFLAGS=-mod=mod GOPROXY=off GOSUMDB=off GOTOOLCHAIN=local
 id=$1; chk=${2:-$1}; tag=${3:-$id}
-src=/tmp/seed/$tag
-out=/verif/seeded/$tag
+src=${SEEDROOT:-/tmp/seed}/$tag
+out=/verif/seeded/${OUTTAG:-$tag}
 mkdir -p $out
 git -C $src diff -- jen ':!jen/zz_demo_test.go' > $out/patch.diff
 cp $src/jen/zz_demo_test.go $out/demo_test.go 2>/dev/null
